@@ -1,6 +1,6 @@
 (** Replays engine-level harness scripts against the model on the float instance. *)
 From Coq Require Import ZArith List Bool Floats Uint63.
-From Flap Require Import Model.Num Model.NumF Model.TripHistory Model.Promises Model.Predictor Model.Engine Model.Persist Run.RunTH.
+From Flap Require Import Model.Num Model.NumF Model.TripHistory Model.Promises Model.Predictor Model.Engine Model.Bot Model.Persist Run.RunTH.
 Import ListNotations.
 Open Scope Z_scope.
 
@@ -92,7 +92,13 @@ Inductive eop :=
 | ECheckTable (hash : Z)
 | ERestart
 | ESave                                       (* remember the current state ... *)
-| ERestore.                                   (* ... and return to it (the harness ran a copy of the database) *)
+| ERestore                                    (* ... and return to it (the harness ran a copy of the database) *)
+(* the traveller-bot protocol of pkg/model run for real (promisesPlanner / journeyPlanner): *)
+| ECheckPlanDays (key today len total : Z) (days : list Z)   (* the days prepareWeights offers *)
+| EBotPlan (key now day len from to dout din : Z) (res : Z)  (* whenWillWeFly with the weights choosing [day] *)
+| ESubmitB (key : Z) (f : flightZ) (debit : bool) (accepted : bool)  (* one journey of submitFlights *)
+| ECheckOutbound (day : Z) (f : flightZ) (from to dist : Z)   (* the flight planTrip built for [day] *)
+| ECheckInbound (outf : flightZ) (len : Z) (inf : flightZ).   (* the return planInbound built *)
 
 Definition perr_code (e : perr) : Z :=
   match e with
@@ -190,6 +196,25 @@ Definition e_step (s : rstate) (o : eop) : rstate * bool :=
   | ERestart => (mkR0 (restart (N:=NumF) to_bits of_bits e) (r_slots s) (r_saved s), true)   (* really encodes and decodes *)
   | ESave => (mkR0 e (r_slots s) (Some e), true)
   | ERestore => match r_saved s with Some e0 => (mkR0 e0 (r_slots s) (r_saved s), true) | None => (s, false) end
+  | ECheckPlanDays k today len total days =>
+      (s, zlist_eqb (prepare_days (t_book (get_create e k 0)) today len total) days)
+  | EBotPlan k now day len from to dout din res =>
+      let '(e', r) := bot_plan e k now day len from to (fl dout) (fl din) in
+      (mkR0 e' (r_slots s) (r_saved s), res =? r)
+  | ESubmitB k f debit accepted =>
+      let '(e', r) := submit_flights e k [flight_of f] (fstart (flight_of f)) debit in
+      (mkR0 e' (r_slots s) (r_saved s), Bool.eqb (res_code r =? 0) accepted)
+  | ECheckOutbound day f from to dist =>
+      let g := flight_of f in
+      let sod := day * SecondsInDay in
+      let dur := fend g - fstart g in
+      (s, draw_ok (fstart g - sod) dur && flightZ_eqb f (flight_to (build_flight (N:=NumF) sod (fstart g - sod) dur from to (fl dist))))
+  | ECheckInbound outf len inf =>
+      let o := flight_of outf in let g := flight_of inf in
+      let sod := inbound_day_start (mkJourney true o len) in
+      let dur := fend g - fstart g in
+      (s, draw_ok (fstart g - sod) dur &&
+          flightZ_eqb inf (flight_to (build_flight (N:=NumF) sod (fstart g - sod) dur (fto o) (ffrom o) (fdist g))))
   end.
 
 Fixpoint e_run (s : rstate) (k : nat) (ops : list eop) : list nat :=
